@@ -1174,6 +1174,26 @@ def rule_mix(c, rules=(("default", 1), ("default", 4)), shared=True, itype="cell
     return form
 
 
+@builder
+def tp_rule_mix(c, rules=(("GLL", 3),), degree=2, bilinear=False):
+    """rule_mix on tensor-product elements (usable with sum_factorization=True; needs tpmesh): non-polynomial integrands, each
+    integral with its own scheme/degree."""
+    el = basix.ufl.wrap_element(basix.create_tp_element(basix.ElementFamily.P, basix.CellType[c.cell], degree, basix.LagrangeVariant.gll_warped))
+    V = c.space(el)
+    f = Coefficient(V)
+    v = TestFunction(V)
+    u = TrialFunction(V)
+    form = None
+    for i, (scheme, q) in enumerate(rules):
+        g = exp(0.5 * f + 0.1 * i) * sin(f + 0.3 * i) + c.x[0] ** 2 * (i + 1)
+        md = {"quadrature_degree": q}
+        if scheme != "default":
+            md["quadrature_rule"] = scheme
+        t = (g * u * v if bilinear else g * v) * dx(metadata=md)
+        form = t if form is None else form + t
+    return form
+
+
 # ============================================================================ C13 near-miss builders
 @builder
 def nearmiss(c, literal=1.5, index=0, which_coef=0, degree=1, power=2, swap_creation=False, kind="form"):
